@@ -24,6 +24,8 @@ def targets(pattern=None):
         patch = os.path.join(d, 'patch.diff')
         if os.path.exists(meta) and os.path.exists(patch):
             mj = json.load(open(meta))
+            if mj.get('superseded'):
+                continue  # no longer a behaviour change on the current tree (see meta.json)
             out.append(('seeded/' + os.path.basename(d), mj.get('detected_by') or [mj['property']], patch))
     if pattern:
         out = [t for t in out if re.search(pattern, t[0])]
